@@ -367,7 +367,7 @@ def gen_scenarios(rng, kinds, n, persistence):
             sc.update(base=[(x["B"], x["A"]) for x in c["base"]], facts=facts, extended=ext)
             if sparse:
                 n_ = len(sc["base"])
-                sc["keys"] = rng.choice([sorted(rng.sample(range(1, n_ + 4), n_)), list(range(2, n_ + 2)), list(range(0, n_))])
+                sc["keys"] = rng.choice([sorted(rng.sample(range(1, n_ + 4), n_)), list(range(2, n_ + 2)), list(range(0, n_)), list(range(9, 9 + n_))])
         elif kind == "c":
             c = infer.gen_case(rng, atoms, rng.choice([1, 2, 3, 3]), 1, {"strong"})
             if not c:
@@ -376,7 +376,8 @@ def gen_scenarios(rng, kinds, n, persistence):
             if rng.random() < 0.4:  # keys other than 1..n in insertion order: permuted, shifted, with gaps, 0-based
                 n_ = len(sc["base"])
                 sc["keys"] = rng.choice([list(range(n_, 0, -1)), list(range(2, n_ + 1)) + [1], sorted(rng.sample(range(1, n_ + 4), n_)), rng.sample(range(1, n_ + 4), n_),
-                                         list(range(2, n_ + 2)), list(range(0, n_))])
+                                         list(range(2, n_ + 2)), list(range(0, n_)),
+                                         list(range(9, 9 + n_)), list(range(8 + n_, 8, -1))])  # two-digit keys: numeric vs string order
         else:
             ranks = [rng.choice([0, 0, 1, 2, 3, 4]) for _ in range(nw)] if rng.random() < 0.7 else [rng.choice([0, 2, 9, 10, 11, 30]) for _ in range(nw)]
             sc["custom"] = ranks
